@@ -335,6 +335,9 @@ def __contains__(a, key) -> bool:
     key = tuple(_flatten(key)) if (hasattr(key,'__iter__') or hasattr(key,'__next__')) else (key,)
     if a.isdiag:
         return key in a.struct.t or (key+key) in a.struct.t
+    nsym = a.config.sym.NSYM
+    if len(key) == a.ndim_n * nsym and a.trans != tuple(range(a.ndim_n)):  # map key to native order of legs, as in __getitem__
+        key = tuple(key[i * nsym + k] for i in np.argsort(a.trans).tolist() for k in range(nsym))
     return key in a.struct.t
 
 ##################################################
